@@ -139,25 +139,26 @@ Qed.
 
 Record grows (st st' : cstate) : Prop := mkgrows {
   gr_vars : exists g, st_used_vars st' = g ++ st_used_vars st /\ fresh_list g (st_used_vars st);
-  gr_labels : exists g, st_used_labels st' = g ++ st_used_labels st /\ fresh_list g (st_used_labels st);
-  gr_lifted : exists l, st_lifted st' = l ++ st_lifted st }.
+  (* labels and lifted definitions grow together: one lifted definition per generated label, named by it *)
+  gr_labels : exists g l, st_used_labels st' = g ++ st_used_labels st /\ fresh_list g (st_used_labels st) /\
+                          st_lifted st' = l ++ st_lifted st /\ map cdname l = map new_id g }.
 
 Lemma grows_refl : forall st, grows st st.
 Proof.
   intros st. constructor.
   - exists []. split; [reflexivity | apply fresh_list_nil].
-  - exists []. split; [reflexivity | apply fresh_list_nil].
-  - exists []. reflexivity.
+  - exists [], []. repeat split; try reflexivity; try constructor. intros x [].
 Qed.
 
 Lemma grows_trans : forall a b c, grows a b -> grows b c -> grows a c.
 Proof.
-  intros a b c [[g1 [E1 F1]] [h1 [L1 G1]] [l1 M1]] [[g2 [E2 F2]] [h2 [L2 G2]] [l2 M2]]. constructor.
+  intros a b c [[g1 [E1 F1]] [h1 [l1 [L1 [G1 [M1 N1]]]]]] [[g2 [E2 F2]] [h2 [l2 [L2 [G2 [M2 N2]]]]]]. constructor.
   - exists (g2 ++ g1). split; [rewrite E2, E1, app_assoc; reflexivity|].
     apply fresh_list_app; [exact F1 | rewrite <- E1; exact F2].
-  - exists (h2 ++ h1). split; [rewrite L2, L1, app_assoc; reflexivity|].
-    apply fresh_list_app; [exact G1 | rewrite <- L1; exact G2].
-  - exists (l2 ++ l1). rewrite M2, M1, app_assoc. reflexivity.
+  - exists (h2 ++ h1), (l2 ++ l1). split; [rewrite L2, L1, app_assoc; reflexivity|].
+    split; [apply fresh_list_app; [exact G1 | rewrite <- L1; exact G2]|].
+    split; [rewrite M2, M1, app_assoc; reflexivity|].
+    rewrite !map_app, N1, N2. reflexivity.
 Qed.
 
 Definition mgrows {X} (m : M X) : Prop := forall st x st', m st = Ok (x, st') -> grows st st'.
@@ -188,38 +189,17 @@ Proof.
   constructor; simpl.
   - exists [x]. split; [exact Hsnd|]. split; [repeat constructor; intros []|].
     intros y [Hy|[]]. subst. exact Hfresh.
-  - exists []. split; [reflexivity | apply fresh_list_nil].
-  - exists []. reflexivity.
+  - exists [], []. repeat split; try reflexivity; try constructor. intros y [].
 Qed.
 Lemma mgrows_fresh_var : mgrows fresh_var.
 Proof. apply mgrows_fresh_in_vars. Qed.
 Lemma mgrows_fresh_covar : mgrows fresh_covar.
 Proof. apply mgrows_fresh_in_vars. Qed.
-Lemma mgrows_fresh_label : forall base, mgrows (fresh_label base).
-Proof.
-  intros base st x st' H. unfold fresh_label in H.
-  destruct (fresh_name (st_used_labels st) base) as [nm used'] eqn:E.
-  injection H as Hx Hst. subst.
-  pose proof (fresh_name_fresh (st_used_labels st) base) as [Hfresh Hsnd]. rewrite E in *. simpl in *.
-  constructor; simpl.
-  - exists []. split; [reflexivity | apply fresh_list_nil].
-  - exists [x]. split; [exact Hsnd|]. split; [repeat constructor; intros []|].
-    intros y [Hy|[]]. subst. exact Hfresh.
-  - exists []. reflexivity.
-Qed.
-Lemma mgrows_push_lifted : forall d, mgrows (push_lifted d).
-Proof.
-  intros d st x st' H. unfold push_lifted in H. injection H as _ H. subst. constructor; simpl.
-  - exists []. split; [reflexivity | apply fresh_list_nil].
-  - exists []. split; [reflexivity | apply fresh_list_nil].
-  - exists [d]. reflexivity.
-Qed.
-
-Ltac mg :=
+Ltac mg0 :=
   repeat first
     [ assumption
     | apply mgrows_ret | apply mgrows_fail | apply mgrows_lift
-    | apply mgrows_fresh_var | apply mgrows_fresh_covar | apply mgrows_fresh_label | apply mgrows_push_lifted
+    | apply mgrows_fresh_var | apply mgrows_fresh_covar
     | apply mgrows_bind; [| intros ?]
     | match goal with
       | |- mgrows (if ?c then _ else _) => destruct c
@@ -228,8 +208,46 @@ Ltac mg :=
       | H : forall c, mgrows (?f c) |- mgrows (?f _) => apply H
       end ].
 
+(* share generates its label and pushes the lifted definition named by it in one go *)
+Lemma mgrows_label_push : forall base ctx body,
+  mgrows (dom name <- fresh_label base; dom _ <- push_lifted (mkcd (new_id name) ctx body); mret name).
+Proof.
+  intros base ctx body st x st' H. unfold mbind, fresh_label, push_lifted, mret in H.
+  destruct (fresh_name (st_used_labels st) base) as [nm used'] eqn:E.
+  injection H as Hx Hst. subst.
+  pose proof (fresh_name_fresh (st_used_labels st) base) as [Hfresh Hsnd]. rewrite E in *. simpl in *.
+  constructor; simpl.
+  - exists []. split; [reflexivity | apply fresh_list_nil].
+  - exists [x], [mkcd (new_id x) ctx body]. split; [exact Hsnd|].
+    split; [split; [repeat constructor; intros [] | intros y [Hy|[]]; subst; exact Hfresh]|].
+    split; reflexivity.
+Qed.
 Lemma mgrows_share : forall cur cont, mgrows (share cur cont).
-Proof. intros. unfold share. mg. Qed.
+Proof.
+  intros cur cont. unfold share. apply mgrows_bind; [mg0|]. intros [[var ty] body].
+  assert (Heq : forall (k : string -> M cterm) base ctx b st,
+            (dom name <- fresh_label base; dom _ <- push_lifted (mkcd (new_id name) ctx b); k name) st =
+            (dom name <- (dom name <- fresh_label base; dom _ <- push_lifted (mkcd (new_id name) ctx b); mret name); k name) st).
+  { intros k base ctx b st. unfold mbind, fresh_label, push_lifted, mret.
+    destruct (fresh_name (st_used_labels st) base). reflexivity. }
+  intros st x st' H. rewrite Heq in H. revert st x st' H.
+  apply mgrows_bind; [apply mgrows_label_push | intros name; mg0].
+Qed.
+
+Ltac mg :=
+  repeat first
+    [ assumption
+    | apply mgrows_share
+    | apply mgrows_ret | apply mgrows_fail | apply mgrows_lift
+    | apply mgrows_fresh_var | apply mgrows_fresh_covar
+    | apply mgrows_bind; [| intros ?]
+    | match goal with
+      | |- mgrows (if ?c then _ else _) => destruct c
+      | |- mgrows (match ?x with _ => _ end) => destruct x
+      | |- mgrows (let '(_, _) := ?x in _) => destruct x
+      | H : forall c, mgrows (?f c) |- mgrows (?f _) => apply H
+      end ].
+
 
 Lemma mgrows_default_compile : forall wcf ty,
   (forall c, mgrows (wcf c)) -> mgrows (default_compile wcf ty).
@@ -444,7 +462,7 @@ Theorem translation_names_fresh : forall codata cur t cont st s st',
   (exists gl, st_used_labels st' = gl ++ st_used_labels st /\ NoDup gl /\ forall x, In x gl -> ~ In x (st_used_labels st)).
 Proof.
   intros codata cur t cont st s st' H.
-  destruct (proj1 (wc_cmp_grows codata cur t) cont st s st' H) as [[gv [Ev [Nv Fv]]] [gl [El [Nl Fl]]] _].
+  destruct (proj1 (wc_cmp_grows codata cur t) cont st s st' H) as [[gv [Ev [Nv Fv]]] [gl [l [El [[Nl Fl] _]]]]].
   split; [exists gv | exists gl]; auto.
 Qed.
 
@@ -474,6 +492,146 @@ Proof.
   pose proof (fresh_name_shape (st_used_labels st1) ("share_" ++ cur ++ "_")%string) as [n Hn].
   rewrite E2 in *. simpl in *.
   exists nm, (tfv_stmt body []), body, n. rewrite <- Hl1, <- Hlift1. auto.
+Qed.
+
+(* ---------- program level: definition names of the output are pairwise distinct ----------
+   (user definitions keep their names, every lifted definition is named by a generated label, and
+   generated labels avoid all user definition names and each other - across definitions too, since
+   used_labels is threaded through the whole program) *)
+From Coq Require Import Permutation FinFun.
+
+Lemma new_id_inj : forall a b, new_id a = new_id b -> a = b.
+Proof. intros a b H. unfold new_id in H. injection H as H. exact H. Qed.
+
+Lemma NoDup_app_intro : forall (X : Type) (a b : list X),
+  NoDup a -> NoDup b -> (forall x, In x a -> ~ In x b) -> NoDup (a ++ b).
+Proof.
+  intros X a b Ha Hb Hd. induction Ha as [|x a Hx Ha IH]; simpl; [exact Hb|].
+  constructor.
+  - intros Hc. apply in_app_or in Hc. destruct Hc as [Hc|Hc]; [contradiction|].
+    apply (Hd x); [left; reflexivity | exact Hc].
+  - apply IH. intros y Hy. apply Hd. right. exact Hy.
+Qed.
+
+Lemma run_def_body_names : forall X codata d ul (k : cty -> M X) x st,
+  (forall ty, mgrows (k ty)) ->
+  run_def_body codata d ul k = Ok (x, st) ->
+  exists gl, st_used_labels st = gl ++ ul /\ fresh_list gl ul /\ map cdname (st_lifted st) = map new_id gl.
+Proof.
+  intros X codata d ul k x st Hk H. unfold run_def_body in H.
+  destruct (fterm_type (fdbody d)) as [bty|]; [|discriminate].
+  destruct (Hk _ _ _ _ H) as [_ [gl [l [El [Fl [Ll Nl]]]]]]. simpl in *.
+  exists gl. rewrite app_nil_r in Ll. subst l. auto.
+Qed.
+
+Lemma compile_def_names : forall d codata ul g ul',
+  compile_def d codata ul = Ok (g, ul') ->
+  exists gl, ul' = gl ++ ul /\ fresh_list gl ul /\ map cdname g = map new_id (fdname d :: gl).
+Proof.
+  intros d codata ul g ul' H. unfold compile_def in H.
+  match type of H with context [run_def_body ?c ?dd ?u ?k] => destruct (run_def_body c dd u k) as [[[a body] st]|e] eqn:E end;
+    simpl in H; [|discriminate].
+  injection H as Hg Hul. subst.
+  apply run_def_body_names in E.
+  - destruct E as [gl [El [Fl Nl]]]. exists gl. simpl. rewrite Nl. auto.
+  - intros ty. mg. apply (proj1 (wc_cmp_grows codata (fdname d) (fdbody d))).
+Qed.
+Lemma compile_main_names : forall d codata ul g ul',
+  compile_main d codata ul = Ok (g, ul') ->
+  exists gl, ul' = gl ++ ul /\ fresh_list gl ul /\ map cdname g = map new_id (fdname d :: gl).
+Proof.
+  intros d codata ul g ul' H. unfold compile_main in H.
+  match type of H with context [run_def_body ?c ?dd ?u ?k] => destruct (run_def_body c dd u k) as [[body st]|e] eqn:E end;
+    simpl in H; [|discriminate].
+  injection H as Hg Hul. subst.
+  apply run_def_body_names in E.
+  - destruct E as [gl [El [Fl Nl]]]. exists gl. simpl. rewrite Nl. auto.
+  - intros ty. mg. apply (proj1 (wc_cmp_grows codata (fdname d) (fdbody d))).
+Qed.
+
+Definition names_ok (ul : list string) (rest : list fdef) (ns : list cident) : Prop :=
+  forall n, In n ns -> exists x, n = new_id x /\ In x ul /\ ~ In x (map fdname rest).
+
+Lemma group_step : forall d r ul gl gn old,
+  NoDup (map fdname (d :: r)) ->
+  (forall d', In d' (d :: r) -> In (fdname d') ul) ->
+  fresh_list gl ul ->
+  gn = map new_id (fdname d :: gl) ->
+  NoDup old -> names_ok ul (d :: r) old ->
+  NoDup (gn ++ old) /\ names_ok (gl ++ ul) r (gn ++ old) /\
+  (forall d', In d' r -> In (fdname d') (gl ++ ul)).
+Proof.
+  intros d r ul gl gn old Hnd Hin [Hndgl Hfgl] Hg Hold Hok. subst gn.
+  simpl in Hnd. inversion Hnd as [|? ? Hdr Hndr]; subst.
+  assert (Hd_ul : In (fdname d) ul) by (apply Hin; left; reflexivity).
+  assert (Hr_ul : forall y, In y (map fdname r) -> In y ul).
+  { intros y Hy. apply in_map_iff in Hy. destruct Hy as [d' [Hy Hd']]. subst y. apply Hin. right. exact Hd'. }
+  split; [|split].
+  - apply NoDup_app_intro; [|exact Hold|].
+    + apply Injective_map_NoDup; [intros a b; apply new_id_inj|].
+      constructor; [|exact Hndgl]. intros Hc. exact (Hfgl _ Hc Hd_ul).
+    + intros n Hn Hc. apply in_map_iff in Hn. destruct Hn as [y [Hy Hyin]]. subst n.
+      destruct (Hok _ Hc) as [x [Hx [Hxul Hnot]]]. apply new_id_inj in Hx. subst x.
+      destruct Hyin as [Hy|Hy].
+      * subst y. apply Hnot. left. reflexivity.
+      * exact (Hfgl _ Hy Hxul).
+  - intros n Hn. apply in_app_or in Hn. destruct Hn as [Hn|Hn].
+    + apply in_map_iff in Hn. destruct Hn as [y [Hy Hyin]]. subst n. exists y. split; [reflexivity|].
+      destruct Hyin as [Hy|Hy].
+      * subst y. split; [apply in_or_app; right; exact Hd_ul | exact Hdr].
+      * split; [apply in_or_app; left; exact Hy|]. intros Hc. exact (Hfgl _ Hy (Hr_ul _ Hc)).
+    + destruct (Hok _ Hn) as [x [Hx [Hxul Hnot]]]. exists x. split; [exact Hx|].
+      split; [apply in_or_app; right; exact Hxul|]. intros Hc. apply Hnot. right. exact Hc.
+  - intros d' Hd'. apply in_or_app. right. apply Hin. right. exact Hd'.
+Qed.
+
+Lemma compile_defs_names : forall defs codata ul front back res,
+  compile_defs defs codata ul front back = Ok res ->
+  NoDup (map fdname defs) ->
+  (forall d, In d defs -> In (fdname d) ul) ->
+  NoDup (map cdname front ++ map cdname back) ->
+  names_ok ul defs (map cdname front ++ map cdname back) ->
+  NoDup (map cdname res).
+Proof.
+  induction defs as [|d r IH]; intros codata ul front back res H Hnd Hin Hacc Hok; simpl in H.
+  - injection H as H. subst res. rewrite rev_append_rev, app_nil_r, map_app, map_rev.
+    eapply Permutation_NoDup; [|exact Hacc].
+    apply Permutation_app_head. apply Permutation_rev.
+  - destruct (String.eqb (fdname d) "main").
+    + destruct (compile_main d codata ul) as [[g ul']|e] eqn:E; simpl in H; [|discriminate].
+      destruct (compile_main_names _ _ _ _ _ E) as [gl [Hul [Hf Hg]]]. subst ul'.
+      destruct (group_step d r ul gl (map cdname g) _ Hnd Hin Hf Hg Hacc Hok) as [H1 [H2 H3]].
+      inversion Hnd; subst.
+      eapply IH; [exact H | assumption | exact H3 | |]; rewrite map_app, <- app_assoc; assumption.
+    + destruct (compile_def d codata ul) as [[g ul']|e] eqn:E; simpl in H; [|discriminate].
+      destruct (compile_def_names _ _ _ _ _ E) as [gl [Hul [Hf Hg]]]. subst ul'.
+      destruct (group_step d r ul gl (map cdname g) _ Hnd Hin Hf Hg Hacc Hok) as [H1 [H2 H3]].
+      inversion Hnd; subst.
+      assert (Hperm : Permutation (map cdname g ++ map cdname front ++ map cdname back)
+                                  (map cdname front ++ map cdname (rev_append g back))).
+      { rewrite rev_append_rev, map_app, map_rev.
+        rewrite app_assoc. rewrite (app_assoc (map cdname front)).
+        apply Permutation_app_tail.
+        eapply Permutation_trans; [apply Permutation_app_comm|].
+        apply Permutation_app_head. apply Permutation_rev. }
+      eapply IH; [exact H | assumption | exact H3 | |].
+      * eapply Permutation_NoDup; [exact Hperm | exact H1].
+      * intros n Hn. apply H2. eapply Permutation_in; [apply Permutation_sym; exact Hperm | exact Hn].
+Qed.
+
+(* Definition names of the translated program are pairwise distinct whenever the source's are:
+   user names are kept, lifted definitions carry generated labels, and generated labels never
+   coincide with a user definition name or with another generated label (of any definition). *)
+Theorem compile_prog_def_names_distinct : forall p c,
+  compile_prog p = Ok c ->
+  NoDup (map fdname (fcpdefs p)) ->
+  NoDup (map cdname (cpdefs c)).
+Proof.
+  intros p c H Hnd. unfold compile_prog in H.
+  destruct (compile_defs (fcpdefs p) _ _ [] []) as [defs|e] eqn:E; simpl in H; [|discriminate].
+  injection H as H. subst c. simpl.
+  eapply compile_defs_names; [exact E | exact Hnd | | constructor | intros n []].
+  intros d Hd. apply in_map. exact Hd.
 Qed.
 
 (* ====================================================================================
